@@ -9,7 +9,7 @@ for f in sorted(glob.glob(os.path.join(ROOT, "lean/RaftVerif/Props/C*.lean"))):
     src = open(f).read()
     module = "RaftVerif.Props." + pid
     opens = re.findall(r"^open ([\w.]+)\s*$", src, re.M)
-    names = re.findall(r"^#print axioms ([\w.']+)", src, re.M)
+    names = re.findall(r"^#print axioms ([\w.'?!]+)", src, re.M)
     obs = []
     for n in names:
         short = n.split(".")[-1]
